@@ -19,7 +19,7 @@ VERIF = os.path.dirname(os.path.dirname(os.path.abspath(__file__)))
 REPO = os.environ.get("VERIF_REPO", "/repo")
 SPEC = os.path.join(VERIF, "spec")
 HARNESS = os.path.join(VERIF, "harness")
-EVIDENCE = os.path.join(VERIF, "evidence")
+EVIDENCE = os.environ.get("VERIF_EVIDENCE") or os.path.join(VERIF, "evidence")
 REPLAY = os.path.join(EVIDENCE, "replay")
 KNOWN = os.path.join(VERIF, "known_findings.json")
 TLA_CP = "/opt/veriftools/tla/tla2tools.jar:/opt/veriftools/tla/CommunityModules-deps.jar"
@@ -82,11 +82,19 @@ class Ctx:
 
 def go_build(ctx, pkg, out_name=None, tags="verif", overlay=None, race=False, timeout=600):
     """Build ./<pkg> of the harness module against /repo's working tree."""
+    # the module file is generated per run so that the code under test is REPO's
+    # working tree (default /repo; VERIF_REPO points the checks at a scratch worktree)
+    modfile = ctx.path("gomod", "go.mod")
+    with open(os.path.join(HARNESS, "go.mod")) as fh:
+        mod = fh.read()
+    mod = re.sub(r"(replace github.com/rogpeppe/go-internal => ).*", lambda m: m.group(1) + REPO, mod)
+    with open(modfile, "w") as fh:
+        fh.write(mod)
     src = os.path.join(REPO, "go.sum")
     if os.path.exists(src):
-        shutil.copyfile(src, os.path.join(HARNESS, "go.sum"))
+        shutil.copyfile(src, ctx.path("gomod", "go.sum"))
     out = ctx.path("bin", out_name or os.path.basename(pkg))
-    cmd = ["go", "build", "-tags", tags, "-o", out]
+    cmd = ["go", "build", "-modfile", modfile, "-tags", tags, "-o", out]
     if overlay:
         cmd += ["-overlay", overlay]
     if race:
